@@ -67,6 +67,10 @@ pub enum FileCase {
     BedLongRest { len: u32, opts: Opts },
     /// one chromosome, two entries, a supplied autoSql of exactly `len` bytes
     BedLongSql { len: u32, opts: Opts },
+    /// n chromosomes named chr1 .. chrN in that (karyotype, not byte) order, out-of-order
+    /// chromosomes allowed: name lookups must not assume sorted names
+    WigKaryo { n: u32, opts: Opts },
+    BedKaryo { n: u32, opts: Opts },
     /// bigwiginfo / bigbedinfo on an encoder-written file (C06 tool part)
     Info(crate::clifam::InfoTool),
     /// `bigbedtobed --zoom` on a file written by the library (C08 tool part)
@@ -129,6 +133,31 @@ pub fn expand(c: &FileCase) -> FileCase {
                 opts: opts.clone(),
             })
         }
+        FileCase::WigKaryo { n, opts } => FileCase::Wig(WigCase {
+            chroms: (0..*n)
+                .map(|ci| WChrom {
+                    name: format!("chr{}", ci + 1),
+                    len: L,
+                    items: (0..(1 + ci % 3)).map(|i| WItem { s: 2 * i + ci % 5, e: 2 * i + ci % 5 + 1 + (ci % 2), vb: ((ci % 9) as f32 + 0.5 * i as f32).to_bits() }).collect(),
+                })
+                .collect(),
+            extra_sizes: vec![],
+            allow_ooo: true,
+            opts: opts.clone(),
+        }),
+        FileCase::BedKaryo { n, opts } => FileCase::Bed(BedCase {
+            chroms: (0..*n)
+                .map(|ci| BChrom {
+                    name: format!("chr{}", ci + 1),
+                    len: L,
+                    items: (0..(1 + ci % 3)).map(|i| BItem { s: i + ci % 5, e: i + ci % 5 + 3 + (ci % 4), rest: format!("k{}_{}", ci, i) }).collect(),
+                })
+                .collect(),
+            extra_sizes: vec![],
+            allow_ooo: true,
+            autosql: None,
+            opts: opts.clone(),
+        }),
         FileCase::WigMany { n, opts } => FileCase::Wig(WigCase {
             chroms: (0..*n)
                 .map(|ci| WChrom {
@@ -717,6 +746,12 @@ fn many_cases(bed: bool, quick: bool) -> Vec<FileCase> {
                         o.ips = ips;
                         o.zoom = zoom;
                         o.bs = 3;
+                        if n <= 130 && src != SrcKind::ParallelFile {
+                            // the same number of chromosomes in karyotype order (33+ of them for n >= 101)
+                            let mut ok = o.clone();
+                            ok.src = src;
+                            v.push(if bed { FileCase::BedKaryo { n: n.max(40), opts: ok } } else { FileCase::WigKaryo { n: n.max(40), opts: ok } });
+                        }
                         v.push(if bed { FileCase::BedMany { n, opts: o } } else { FileCase::WigMany { n, opts: o } });
                     }
                 }
@@ -2215,7 +2250,21 @@ impl Check for C08 {
             let zo = zo.clone();
             (0..8usize).step_by(step).map(move |li| FileCase::ZoomTool(bed_multi(si, li, &zo[(li * 3 + si) % zo.len()])))
         });
-        Box::new(bed_zoom_family(tier).chain(tools).chain(uneven_cases(true).into_iter()).chain(mid_cases(true).into_iter()).chain(sparse_cases(true).into_iter()))
+        Box::new(bed_zoom_family(tier).chain(tools).chain(uneven_cases(true).into_iter()).chain(mid_cases(true).into_iter()).chain(sparse_cases(true).into_iter()).chain({
+            let mut v = vec![];
+            for lay in 0..4u32 {
+                for two_pass in [false, true] {
+                    for zoom in [Zoom::Manual(vec![4]), Zoom::Manual(vec![10, 40]), Zoom::AutoDefault] {
+                        let mut o = Opts::base();
+                        o.two_pass = two_pass;
+                        o.zoom = zoom;
+                        o.ips = if lay % 2 == 0 { 1 } else { 1024 };
+                        v.push(FileCase::BedBeyondEnd { lay, opts: o });
+                    }
+                }
+            }
+            v.into_iter()
+        }))
     }
     fn run(&self, case: &FileCase, out: &mut Outcome) {
         if let FileCase::ZoomTool(c) = case {
@@ -2236,8 +2285,18 @@ impl Check for C08 {
         }
         out.nontrivial = dec.as_ref().map(|d| !d.zooms.is_empty()).unwrap_or(false)
             && c.chroms.iter().map(|c| c.items.len()).sum::<usize>() >= 2;
-        let all_ranges = (c.chroms.iter().all(|ch| ch.items.len() <= 2) || c.chroms.len() > 1) && c.chroms.iter().all(|ch| ch.len <= 64);
-        oracle_c08(&c, &bytes, all_ranges, out);
+        // entries reaching beyond the chromosome end: their bases are covered bases like any others,
+        // so the oracle works on chromosomes extended to the furthest entry end
+        let mut cx = c.clone();
+        for ch in cx.chroms.iter_mut() {
+            let far = ch.items.iter().map(|i| i.e).max().unwrap_or(0);
+            if far > ch.len {
+                ch.len = far;
+                out.count("chromosomes_with_entries_beyond_the_end", 1);
+            }
+        }
+        let all_ranges = (cx.chroms.iter().all(|ch| ch.items.len() <= 2) || cx.chroms.len() > 1) && cx.chroms.iter().all(|ch| ch.len <= 64);
+        oracle_c08(&cx, &bytes, all_ranges, out);
     }
     fn space(&self, tier: Tier) -> serde_json::Value {
         let q = tier == Tier::Quick;
